@@ -14,7 +14,9 @@ for ext in ("rs", "sh"):
     if os.path.exists(f):
         shutil.copy(f, os.path.join(dst, "demo." + ext))
 notes = open(os.path.join(src, m + ".md")).read() if os.path.exists(os.path.join(src, m + ".md")) else ""
-r = subprocess.run([sys.executable, "/verif/tools/mutant.py", os.path.join(dst, "patch.diff")] + props, capture_output=True, text=True)
+# SEED_ISO=1: run against a scratch copy (tools/mutant_iso.py) instead of /repo's working tree
+tool = "/verif/tools/mutant_iso.py" if os.environ.get("SEED_ISO") else "/verif/tools/mutant.py"
+r = subprocess.run([sys.executable, tool, os.path.join(dst, "patch.diff")] + props, capture_output=True, text=True)
 print(r.stdout[-2000:])
 lines = [l for l in r.stdout.split("\n") if l[:3] in props or l.split(" ")[0] in props]
 meta = {"breaks_property": pid, "origin": "fresh sub-agent given only the property text and a scratch worktree",
